@@ -157,6 +157,27 @@ class DynConfMonitor(Monitor):
                 except (ValueError, SyntaxError):
                     names = []
                 truth = inst.running_truth()
+                # FAILED is the answer of the final confirmation of the method itself (_check_process_insertion /
+                # _check_process_deletion: deliberate although not listed in the docstring): it is accepted when it is
+                # TRUE on the real Supervisor - a process in excess that still exists and is not marked for removal
+                # (the removal was cancelled by a later opposite request), a new process that does not exist
+                try:
+                    value = int(ast.literal_eval(args)[1]) if isinstance(args, str) else int(args[1])
+                except (ValueError, SyntaxError, IndexError, TypeError):
+                    value = None
+                truthful = bool(names) and value is not None
+                for name in names:
+                    group, _, pname = name.partition(':')
+                    proc = inst.sd.process_groups[group].processes.get(pname) if group in inst.sd.process_groups \
+                        else None
+                    present = proc is not None and not getattr(proc, 'obsolete', False)
+                    index = int(pname.rsplit('_', 1)[1]) if pname.rsplit('_', 1)[-1].isdigit() else 1
+                    in_excess = value is not None and index > value
+                    if in_excess != present:
+                        truthful = False
+                if truthful:
+                    self.count('failed_answers_that_are_true')
+                    return
                 if names and all(truth.get(n) == 40 for n in names):
                     mech = ':process-already-stopping-when-the-decrease-is-requested-without-wait'
             self.violate(f"C16/undocumented-fault:{method.split('.')[1]}:{code}{mech}",
